@@ -62,6 +62,8 @@ def run_case(case: dict) -> dict:
     counters: dict[str, int] = {"protocol_steps": 0, "segments_checked": 0}
     # prefix: fresh or continued
     prefix = rng.choice(["fresh", "simulate", "override", "protocol", "simulate+override", "simulate+update_parameter", "protocol+update_parameter"])
+    if prefix in ("override", "simulate+override", "protocol", "simulate") and core.rng_for(case["seed"] + ":clear").random() < 0.3:
+        prefix += "+clear"  # the simulator is emptied again before the protocol: it then runs as on a fresh simulator (from Simulator.y0, at t = 0)
     pre: list[dict] = []
     if "simulate" in prefix:
         pre.append({"op": "simulate", "t_end": dy(rng, 0.25, 2.0), "steps": rng.randint(1, 5)})
@@ -69,8 +71,10 @@ def run_case(case: dict) -> dict:
         if not pre:
             pre.append({"op": "simulate", "t_end": dy(rng, 0.25, 2.0)})
         pre.append({"op": "update_variable", "name": rng.choice(net.variables), "value": dy(rng, 0.0, 4.0)})
-    if prefix == "protocol":
+    if prefix in ("protocol", "protocol+clear"):
         pre.append({"op": "protocol", "steps": gen_protocol(rng, list(net.params)), "n": rng.randint(1, 4)})
+    if prefix.endswith("+clear"):
+        pre.append({"op": "clear"})
     counters[f"prefix:{prefix}"] = 1
     steps = gen_protocol(rng, list(net.params))
     long_steps = rng.random() < 0.2
